@@ -52,6 +52,8 @@ def run_result(ctx, desc, extra_sample=None):
     cov[f"box.{desc['box']['cls']}"] += 1
     cov[f"objective.{desc['obj']['fam']}"] += 1
     cov[f"direction.{'max' if desc.get('maximize') else 'min'}"] += 1
+    if any(lv.get("method") == "l-bfgs-b" for lv in desc.get("levels", [])):
+        cov["local_method_name_in_lower_case"] += 1
     if desc.get("options", {}).get("log_level") in ("info", "debug"):
         cov["log_level.verbose"] += 1
     if "gsc" in desc:
@@ -210,12 +212,17 @@ class C01(RunSpec):
         p["fams"] = ["linear", "face", "linear", "face", "sphere", "rastrigin", "funnel", "absv", "plateau", "constant"]
         p["levels"] = [2, 2, 3, 1] if idx % 10 else [1]
         p["gscs"] = ["melimit", "evals"]
+        if idx % 16 == 3:
+            # a local search pulled towards / across a face, with the method name spelt the way scipy itself accepts it
+            p.update({"leaf": _cycle(["local", "local_maxiter"], idx // 16), "fams": ["linear", "face"], "levels": [2, 3], "local_method": "l-bfgs-b"})
         if idx % 16 == 15:
             p = {"kind": "minimize", "box": p["box"], "fams": p["fams"], "dim": (2, 5), "same_callable_two_boxes": bool((idx // 16) % 2)}
         return p
 
     def make_case(self, seed, idx, tier):
         d = super().make_case(seed, idx, tier)
+        if idx % 16 == 3 and d.get("kind") == "tree" and d["levels"][-1]["engine"].startswith("local"):
+            d["levels"][-1]["method"] = "l-bfgs-b"
         if idx % 16 == 7 and d.get("kind") == "tree":
             # a used configuration deep-copied and pointed at a problem over another box (see harness.run_retarget_pair)
             rng = gen.case_rng(self.prop, seed, idx, "retarget")
@@ -228,6 +235,7 @@ class C01(RunSpec):
         fl = [(f"engine.{e}", 1, "engine of the quantifier on some level") for e in ROOT_ENGINES + CMA_ENGINES + LEAF_ONLY]
         fl += [(f"box.{b}", 1, "box class") for b in gen.BOX_CLASSES]
         fl += [("C01.on_face.LocalDeme metaepoch", 1, "a local search touched a face"), ("C01.evals_checked", 1000, "evaluations observed")]
+        fl += [("local_method_name_in_lower_case", 2, "local level whose method name is given in lower case")]
         fl += [("retargeted_configurations_completed", 2, "trees built from a deep-copied, re-targeted configuration"), ("minimize_after_same_callable_on_another_box", 1, "minimize() of a callable that was minimised over another box before")]
         return fl
 
@@ -954,6 +962,10 @@ class C18(RunSpec):
         p["gscs"] = ["melimit", "melimit", "evals", "fevals"]
         p["level_limit"] = rng.randint(1, 3)
         p["lscs"] = ["melimit", "user", "dontstop", "melimit"]
+        if idx % 10 == 8:
+            # a one-individual child on the *same* problem object as its parent, the parent asleep while the child runs
+            p.update({"n_levels": 2, "leaf": _cycle(["sea", "sea_cx", "ga", "sea_adapt"], idx // 10), "shared": True, "hibernation": True, "sprout": "simple", "level_limit": 1,
+                      "lscs": ["dontstop"], "gscs": ["melimit"], "stacks": False, "tiny_leaf_p": 1.0})
         if idx % 10 == 2:
             # local-method generator with hibernation: active demes of the last-but-one level are never offered while they run
             p.update({"n_levels": 3, "leaf": "local", "sprout": "custom", "hibernation": True, "inner": _cycle(["cma", "sea", "de"], idx // 10), "gscs": ["melimit"]})
@@ -964,6 +976,10 @@ class C18(RunSpec):
         if idx % 10 == 2 and len(d["levels"]) == 3 and d["levels"][-1]["engine"].startswith("local") and not d.get("reuse") and not d.get("soak"):
             d["sprout"] = {"k": "custom", "gen": {"k": "nbclocal", "df": 2.0, "trunc": 1.0}, "dfilters": [{"k": "demelimit", "n": 2}], "tfilters": [{"k": "levellimit", "n": 3}], "ll": 3}
             d["levels"][1]["lsc"] = {"k": "melimit", "n": 3}
+        if idx % 10 == 8 and len(d["levels"]) == 2 and not d.get("reuse") and not d.get("soak"):
+            d["levels"][-1]["pop"] = 1
+            d["levels"][-1]["k_elites"] = 1
+            d["sprout"]["far"] = 1e-9
         if d["gsc"]["k"] == "melimit":
             d["gsc"]["n"] = max(d["gsc"]["n"], 8)
         if idx % 10 == 6 and len(d["levels"]) == 3 and not d.get("reuse") and not d.get("soak"):
@@ -1044,6 +1060,7 @@ class C18(RunSpec):
 
     def floors(self, tier):
         return [
+            ("C18.sleeping_parent_with_running_one_individual_child_on_shared_problem", 3, "sleeping parent whose one-individual child (same problem object) is running"),
             ("C18.limit_placed_inside_a_round_with_two_parents", 1, "evaluation limit crossed inside a sprouting round in which two parents sprout"),
             ("C18.flag_rule_checked.sleep.root", 1, "root put to sleep"),
             ("C18.flag_rule_checked.sleep.intermediate", 1, "intermediate deme put to sleep"),
